@@ -51,7 +51,13 @@ impl ScxmlEventIOProcessor {
         }
     }
 
-    fn send_to_session(&mut self, global_data_lock: &mut GlobalDataLock, session_id: SessionId, event: Event) -> bool {
+    fn send_to_session(&mut self, global_data_lock: &mut GlobalDataLock, session_id: SessionId, mut event: Event) -> bool {
+        // The invoke id tells an invoker which of its invocations an event comes from. A receiver
+        // that is not the invoker would take it for the id of one of its own (cancelled)
+        // invocations and ignore the event, so it only travels to the parent session.
+        if global_data_lock.parent_session_id != Some(session_id) {
+            event.invoke_id = None;
+        }
         match &global_data_lock.executor {
             None => {
                 panic!("Executor not available");
